@@ -192,7 +192,7 @@ def job_regexp(job, depth, maxlen, syms='ab', shape=None):
     return job.solve()
 
 
-def job_cfg(job, family, nsym=6):
+def job_cfg(job, family, nsym=6, eps=None):
     from gambatools.cfg_algorithms import cfg_print_simple, parse_simple_cfg
     from .cfg_sym import sym_cfg, entries_json, read_cfg
     from .C08 import FAMILIES
@@ -204,9 +204,13 @@ def job_cfg(job, family, nsym=6):
     cands = [(X, tuple(r)) for X, r in fixed] + [(X, tuple(r)) for X, r in symbolic]
     G, entries = sym_cfg(variables, terminals, cands, variables[0], fixed=[(X, tuple(r)) for X, r in fixed])
     dec = entries_json(entries, variables, terminals, variables[0])
+    if eps is not None:
+        # a grammar object with its own epsilon symbol (as read from a text with `epsilon = e`, or passed to the constructor)
+        import gambatools.cfg as C
+        G.epsilon = C.Terminal(eps)
     job.inputs['G'] = G
     job.decoders['G'] = dec
-    rp = ('cfg', {'G': dec})
+    rp = ('cfg', {'G': dec, 'eps': eps})
     # documented precondition: every variable has a rule, the start variable's rule comes first, every terminal occurs
     has_rule = {v: d.any_(bit for bit, X, rhs in entries if X == v) for v in variables}
     uses = {t: d.any_(bit for bit, X, rhs in entries if t in rhs) for t in terminals}
@@ -256,8 +260,10 @@ def jobs(tier):
     add('nfa_n2_k0', job_nfa, n=2, k=0, eps='_', partial=True, timeout=tmo)
     for fam in ('grow_cycle', 'replace_and_pop', 'two_stack_symbols', 'replace_only'):
         add('pda_%s' % fam, job_pda, fam=fam, timeout=tmo)
+    add('pda_percent_stack', job_pda, fam='percent_stack', timeout=tmo)
     add('pda_random_unicode', job_pda, fam='random', seed=3, eps='ε', timeout=tmo)
     add('tm_w1_g1', job_tm, nwork=1, gamma_in='a', blank='_', timeout=tmo)
+    add('tm_w1_percent', job_tm, nwork=1, gamma_in='%', blank='_', timeout=tmo)
     add('tm_w2_g1_box', job_tm, nwork=2, gamma_in='a', blank='□', timeout=tmo)
     # (a TM over two input symbols - three table entries - lifts in 13 minutes and its two solver queries then time out: not registered)
     # regular expressions: operator shape fixed per job (cube splitting), leaves symbolic over {0, 1, a, b}:
@@ -267,6 +273,8 @@ def jobs(tier):
         add('regexp_%s' % _shape_name(s), job_regexp, depth=_depth(s), maxlen=3, shape=s, timeout=tmo)
     for fam in ('eps_unit', 'three_vars', 'shared_rhs', 'repeated_nullable', 'long', 'indirect_nullable', 'useless_cyclic', 'length5'):
         add('cfg_%s' % fam, job_cfg, family=fam, nsym=9, timeout=tmo)
+    add('cfg_eps_unit_own_epsilon', job_cfg, family='eps_unit', nsym=9, eps='e', timeout=tmo)
+    add('cfg_three_vars_own_epsilon', job_cfg, family='three_vars', nsym=9, eps='x', timeout=tmo)
     return J
 
 
@@ -347,6 +355,9 @@ def _replay_regexp(rp):
 def _replay_cfg(rp):
     from gambatools.cfg_algorithms import cfg_print_simple, parse_simple_cfg
     G = nat.mk_cfg(rp['G'])
+    if rp.get('eps'):
+        import gambatools.cfg as C
+        G.epsilon = C.Terminal(rp['eps'])
     try:
         t = cfg_print_simple(G)
         G2 = parse_simple_cfg(t)
